@@ -25,7 +25,7 @@ func genC01(g *gen) {
 	// higher ranks with pairwise different extents: the column-major constructors (raw backing / converting a
 	// row-major sequence) permute axes, which a symmetric or low-rank shape cannot tell apart
 	for _, sh := range [][]int{{2, 3, 2, 2}, {2, 3, 4, 2}, {3, 2, 2, 3}, {2, 1, 3, 2}, {2, 3, 2, 1, 2}, {2, 2, 3, 2, 2}} {
-		for _, ord := range orders {
+		for _, ord := range append(append([]string{}, orders...), "C1", "Fraw1", "Fraw2") {
 			for _, dt := range []string{"i32", "f64", "str"} {
 				g.emit(fmt.Sprintf("new %s %s %s", dt, ints(sh), ord), "atbox $0 0 -1", "dump $0", fmt.Sprintf("setat $0 %s", ints(make([]int, len(sh)))), "dump $0")
 			}
@@ -44,7 +44,15 @@ func genC01(g *gen) {
 						continue
 					}
 					nv := 1
-					steps := []string{fmt.Sprintf("new %s %s %s", dt, ints(sh), ord)}
+					// the constructor options in a rotating order
+					ordv := ord
+					switch {
+					case ord == "C" && (si+di)%2 == 1:
+						ordv = "C1"
+					case ord == "Fraw":
+						ordv = []string{"Fraw", "Fraw1", "Fraw2"}[(si+di)%3]
+					}
+					steps := []string{fmt.Sprintf("new %s %s %s", dt, ints(sh), ordv)}
 					ls, v, _ := g.layoutSteps(0, &nv, sh, cl)
 					steps = append(steps, ls...)
 					steps = append(steps, fmt.Sprintf("atbox $%d -2 1", v))
@@ -537,7 +545,37 @@ func genC04(g *gen) {
 		steps, v, _ := g.viewSteps(dt, sh, ord)
 		nv := v + 1
 		vs := fmt.Sprintf("$%d", v)
-		switch g.r.intn(9) {
+		switch g.r.intn(12) {
+		case 9: // in-place unary arithmetic through the view (every generated unary method and Clamp)
+			op := g.r.pick([]string{"neg", "square", "abs", "sign", "clamp", "cube", "inv", "sqrt", "tanh", "exp"})
+			params := ""
+			if op == "clamp" {
+				params = " #k2 #k5"
+			}
+			vsn := 2
+			if op != "inv" {
+				vsn = 1 + g.r.intn(3)
+			}
+			steps = append([]string{fmt.Sprintf("vset=%d", vsn)}, steps...)
+			steps = append(steps, fmt.Sprintf("un %s %s%s unsafe", op, vs, params), fmt.Sprintf("dump $%d", nv))
+			nv++
+		case 10: // in-place tensor-scalar arithmetic / comparison through the view
+			op := g.r.pick([]string{"add", "sub", "mul", "gt", "eq", "minb"})
+			side := g.r.pick([]string{vs + " #k3", "#k3 " + vs})
+			kw := "bin"
+			if op == "minb" {
+				kw = "mmb"
+			}
+			steps = append(steps, fmt.Sprintf("%s %s %s %s unsafe", kw, op, g.r.pick([]string{"fn", "meth"}), side), fmt.Sprintf("dump $%d", nv))
+			nv++
+		case 11: // in-place tensor-tensor arithmetic: the view is the destination, a fresh copy the other operand
+			op := g.r.pick([]string{"add", "sub", "mul", "lte", "maxb"})
+			kw := "bin"
+			if op == "maxb" {
+				kw = "mmb"
+			}
+			steps = append(steps, "clone "+vs, fmt.Sprintf("%s %s %s %s $%d unsafe", kw, op, g.r.pick([]string{"fn", "meth"}), vs, nv), fmt.Sprintf("dump $%d", nv+1))
+			nv += 2
 		case 0:
 			steps = append(steps, "memset "+vs)
 		case 1:
